@@ -95,6 +95,10 @@ func cmsImgStr(d cmsDoc) string {
 
 func persistBloom(c *Ctx) persistObj {
 	cfg := randBloomCfg(c, 0)
+	return persistBloomWith(c, cfg)
+}
+
+func persistBloomWith(c *Ctx, cfg bloomCfg) persistObj {
 	cfg.redis = false
 	f, _ := cfg.build()
 	pool := elemPool(c.rng, 8, false)
@@ -136,6 +140,12 @@ func persistBloom(c *Ctx) persistObj {
 		},
 		equalsTo: func(t persistTarget) (bool, error) { return f.Equals(t.raw.(*gostatix.BloomFilter)) },
 	}
+}
+
+// a bit array of several 4 KiB blocks
+func persistBloomBig(c *Ctx) persistObj {
+	o := persistBloomWith(c, bloomCfg{kind: "bitset", words: 1100 + c.rng.Intn(900), numHashes: 5})
+	return o
 }
 
 func persistCMS(c *Ctx) persistObj {
@@ -426,6 +436,7 @@ func suitePersist(c *Ctx) {
 	for i := 0; i < c.scale(1, 4); i++ {
 		persistCase(c, persistCMSWide(c), nil)
 		persistCase(c, persistHLLBig(c), nil)
+		persistCase(c, persistBloomBig(c), nil)
 		b := persistBloom(c)
 		persistCase(c, persistTopKHuge(c), &b)
 	}
@@ -537,6 +548,22 @@ func persistCase(c *Ctx, o persistObj, second *persistObj) {
 			c.branch("back-to-back")
 		}
 	}
+	// ---- a writer that fails (disk full, connection reset) after `lim` bytes: WriteTo must say so,
+	// wherever in the image the failure falls (a torn image reported as written is what C18's
+	// readers then meet), and must not claim more bytes than the writer took
+	var cur bytes.Buffer // the structure may have moved on since `raw` was taken
+	o.writeTo(&cur)
+	for _, lim := range writeFaultPoints(cur.Len()) {
+		fw := &failingWriter{limit: lim}
+		var wn int64
+		var werr error
+		res := safely(func() { wn, werr = o.writeTo(fw) })
+		c.rep.Ops["WriteTo.failing-writer"]++
+		if res.panicked || werr == nil || wn > int64(lim) {
+			c.fail([]string{"C11", "C18"}, o.kind+"-writeto-hides-write-error", fmt.Sprintf("%s: the writer failed after %d of %d bytes; WriteTo returned (%d, %v) panic=%q", o.kind, lim, cur.Len(), wn, werr, res.panicVal), map[string]interface{}{"kind": o.kind, "image_hex": hexStr(cur.Bytes()), "writer_fails_after": lim})
+			break
+		}
+	}
 	// ---- C18: every strict prefix of the binary image is rejected
 	step := 1
 	if len(raw) > 3000 {
@@ -587,16 +614,62 @@ func persistCase(c *Ctx, o persistObj, second *persistObj) {
 	c.sample(map[string]interface{}{"kind": o.kind, "image_bytes": len(raw), "json_bytes": len(doc)})
 }
 
+// failingWriter accepts `limit` bytes in total and fails from then on (short write + error)
+type failingWriter struct{ limit, n int }
+
+func (w *failingWriter) Write(p []byte) (int, error) {
+	room := w.limit - w.n
+	if room >= len(p) {
+		w.n += len(p)
+		return len(p), nil
+	}
+	if room < 0 {
+		room = 0
+	}
+	w.n += room
+	return room, fmt.Errorf("injected write failure after %d bytes", w.limit)
+}
+
+func writeFaultPoints(n int) []int {
+	if n <= 200 {
+		out := make([]int, 0, n)
+		for i := 0; i < n; i++ {
+			out = append(out, i)
+		}
+		return out
+	}
+	var out []int
+	for i := 0; i < n; i++ {
+		if i < 64 || i >= n-100 || i%(n/60+1) == 0 {
+			out = append(out, i)
+		}
+	}
+	return out
+}
+
 // cutPoints: every step-th strict prefix length of an n-byte image, and all of the first and the
 // last 80 (headers and trailers are where a decoder's length bookkeeping ends)
 func cutPoints(n, step int) []int {
 	var out []int
 	for cut := 0; cut < n; cut++ {
-		if cut%step == 0 || cut < 80 || cut >= n-80 {
+		if cut%step == 0 || cut < 80 || cut >= n-80 || blockBoundary(cut) {
 			out = append(out, cut)
 		}
 	}
 	return out
+}
+
+// blockBoundary: a whole number of blocks (512 B .. 64 KiB) after a header of 0..48 bytes - where a
+// decoder that reads its payload block by block sees a clean end of file
+func blockBoundary(cut int) bool {
+	for _, b := range []int{512, 1024, 4096, 8192, 65536} {
+		for h := 0; h <= 48; h += 8 {
+			if cut > h && (cut-h)%b == 0 {
+				return true
+			}
+		}
+	}
+	return false
 }
 
 // ---- stream kinds.  bytes.Reader is an io.ByteReader/io.Seeker that always fills the buffer; files,
